@@ -122,6 +122,13 @@ impl KeyMap {
         self.pk(name).key_id().clone()
     }
     pub fn idstr(&self, name: &str) -> String {
+        // "<name>~": an identifier that only looks like <name>'s (same beginning, another last character)
+        if let Some(base) = name.strip_suffix('~') {
+            let mut id = self.idstr(base);
+            let last = id.pop().unwrap();
+            id.push(if last == '0' { '1' } else { '0' });
+            return id;
+        }
         kid_str(self.pk(name).key_id())
     }
     /// abstract name of a concrete key id (or the id itself when unknown)
